@@ -1149,3 +1149,94 @@ theorem C15_ivector_training_sigma_equivariant (s : ℝ) (hs0 : s ≠ 0) (b : Fi
     exact iv_mStep_sigma_uniform s hs0 b m _ _ floor e1 e2
       (by funext c d; exact iv_eStep_snorm_aff (fun _ => s) b m parts.flatten c d) (iv_eStep_nij_aff (fun _ => s) b m parts.flatten)
 end IVAffine
+
+/-! ### Unit conversion of a machine's public history (parameters and floors given in any order) -/
+section SetterHistory
+variable {C D : ℕ}
+
+/-- one public mutation of a `GMMMachine`, expressed in the new units: means `a μ + b`, variances and
+floors `a² ·` -/
+def affOp (a b : Fin D → ℝ) : GOp C D ℝ → GOp C D ℝ
+  | .setWeights w => .setWeights w
+  | .setMeans m => .setMeans (fun c d => a d * m c d + b d)
+  | .setVariances v => .setVariances (fun c d => a d * a d * v c d)
+  | .setThresholds t => .setThresholds (fun c d => a d * a d * t c d)
+  | .mStep as => .mStep as
+  | .clone => .clone
+
+/-- assignments and copies (everything but a training step, which `C15_ml_equivariant` /
+`C15_map_mstep_equivariant` cover) -/
+def BobEM.GOp.isAssignment : GOp C D ℝ → Prop
+  | .mStep _ => False
+  | _ => True
+
+/-- the visible state of `s'` is that of `s` in the new units -/
+structure AffState (a b : Fin D → ℝ) (s s' : GState C D ℝ) : Prop where
+  w : s'.weights = s.weights
+  m : s'.means = s.means.map (fun m c d => a d * m c d + b d)
+  v : s'.variances = s.variances.map (fun v c d => a d * a d * v c d)
+  t : s'.thresholds = fun c d => a d * a d * s.thresholds c d
+
+theorem affState_step (a b : Fin D → ℝ) (s s' : GState C D ℝ) (h : AffState a b s s') (op : GOp C D ℝ)
+    (hop : op.isAssignment) : AffState a b (s.step op) (s'.step (affOp a b op)) := by
+  have hmax : ∀ (t v : ℝ) (d : Fin D), max (a d * a d * t) (a d * a d * v) = a d * a d * max t v := fun t v d =>
+    (mul_max_of_nonneg t v (mul_self_nonneg (a d))).symm
+  obtain ⟨hw, hm, hv, ht⟩ := h
+  cases op with
+  | setWeights w => exact ⟨rfl, hm, hv, ht⟩
+  | setMeans m => exact ⟨hw, by simp [GState.step, affOp, GState.setMeans], hv, ht⟩
+  | setVariances v =>
+    refine ⟨hw, hm, ?_, ht⟩
+    simp only [GState.step, affOp, GState.setVariances, Option.map_some, Option.some.injEq, ht]
+    funext c d; exact hmax _ _ d
+  | setThresholds t =>
+    cases hsv : s.variances with
+    | none =>
+      have hsv' : s'.variances = none := by rw [hv, hsv]; rfl
+      refine ⟨?_, ?_, ?_, ?_⟩ <;> simp only [GState.step, affOp, GState.setThresholds, hsv, hsv']
+      · exact hw
+      · exact hm
+      · rfl
+    | some v0 =>
+      have hsv' : s'.variances = some (fun c d => a d * a d * v0 c d) := by rw [hv, hsv]; rfl
+      refine ⟨?_, ?_, ?_, ?_⟩ <;> simp only [GState.step, affOp, GState.setThresholds, GState.setVariances, hsv, hsv']
+      · exact hw
+      · exact hm
+      · simp only [Option.map_some, Option.some.injEq]
+        funext c d; rw [hmax, hmax]
+  | mStep as => exact absurd hop (by simp [GOp.isAssignment])
+  | clone => exact ⟨hw, hm, hv, ht⟩
+
+/-- **Floors follow the features, whatever the order of the assignments**: run any history of public
+assignments (weights, means, variances, floors, copies — in any order, any number of times) in the
+original units and the converted history in the new units; the resulting machines have the same
+weights, means `a μ + b`, and **clamped** variances and floors `a² ·` — for every `a` (no sign or
+non-zero condition is needed here) and every per-Gaussian, per-feature floor array -/
+theorem C15_assignment_history_equivariant (a b : Fin D → ℝ) (s s' : GState C D ℝ) (h : AffState a b s s')
+    (ops : List (GOp C D ℝ)) (hops : ∀ op ∈ ops, op.isAssignment) :
+    AffState a b (s.run ops) (s'.run (ops.map (affOp a b))) := by
+  induction ops generalizing s s' with
+  | nil => simpa [GState.run] using h
+  | cons op ops ih =>
+    simp only [GState.run, List.map_cons, List.foldl_cons]
+    exact ih _ _ (affState_step a b s s' h op (hops op (by simp))) (fun o ho => hops o (by simp [ho]))
+
+/-- a fresh machine with scalar floor `f`, and a fresh machine whose floors are then set to `a² f` per
+feature, are related: the starting point of `C15_assignment_history_equivariant` is reachable -/
+theorem C15_fresh_machines_related (a b : Fin D → ℝ) (w : Fin C → ℝ) (f f' : ℝ) :
+    AffState a b (GState.init w f) ((GState.init (D := D) w f').setThresholds (fun _ d => a d * a d * f)) :=
+  ⟨rfl, rfl, rfl, rfl⟩
+
+end SetterHistory
+
+/-- non-vacuity of `C15_assignment_history_equivariant`: variances given first, then a per-feature floor
+that clamps one of them (in centimetres vs metres on the second feature) -/
+example :
+    let a : Fin 2 → ℝ := ![1, 100]
+    let ops : List (GOp 1 2 ℝ) := [.setMeans (fun _ _ => 0), .setVariances (fun _ d => ![4, 1] d), .setThresholds (fun _ _ => 2)]
+    ((GState.init (fun _ => 1) 0).run ops).variances.map (fun v => (v 0 0, v 0 1)) = some (4, 2)
+      ∧ ((((GState.init (D := 2) (fun _ => 1) 0).setThresholds (fun _ d => a d * a d * 0)).run (ops.map (affOp a ![0, 0]))).variances.map
+          (fun v => (v 0 0, v 0 1))) = some (4, 20000) := by
+  simp only [GState.run, GState.init, List.foldl_cons, List.foldl_nil, List.map_cons, List.map_nil, GState.step, affOp, GState.setMeans, GState.setVariances,
+    GState.setThresholds, Option.map_some]
+  norm_num [Matrix.cons_val_zero, Matrix.cons_val_one]
